@@ -46,9 +46,16 @@ func RunManyFilter(seed int64, nTip, nCp, nHook int, cb FilterCallbacks) {
 	for i := 0; i < nTip; i++ {
 		jobs <- job{0, i}
 	}
+	for i := 0; i < NBoundary(nTip); i++ {
+		jobs <- job{3, i}
+	}
 	close(jobs)
 	wg.Wait()
 	for i := 0; i < nHook; i++ {
 		run(job{2, i})
 	}
 }
+
+// NBoundary is the number of boundary-placement sessions (class 3) that go with
+// nTip at-tip sessions.
+func NBoundary(nTip int) int { return max(12, nTip*3/4) }
